@@ -530,6 +530,36 @@ def r_fixpoint(A, ctx, scope, rule="R-FIXPOINT"):
         ctx.ob(rule, key, False, what=f"dist_fix_point_bcd raises: {e}", loc=loc(f, f.node))
     except (Unsupported, ZeroDivisionError, IndexError) as e:
         ctx.ob(rule, key, None, detail=f"not lifted: {e}")
+    # ---- groups, first group of the working set with zero curvature: its score is skipped, the
+    # stacked gradient of the groups after it is still read at their own offset
+    f = _func(A, "skglm.solvers.common", "dist_fix_point_bcd")
+    key = f"{f.fq}::WeightedGroupL2::zero-curvature group first"
+    try:
+        L, rg = fresh()
+        pobj = make_obj(prog, pcls)
+        w = Vec(sym(f"w{j}") for j in range(P))
+        ws = Vec([1, 0])
+        g = Vec([sym("g0"), sym("g1"), sym("g2")])
+        lc = Vec([const(0), sym("lc1")])
+        got = L.call_function(f, [w, g, lc, None, pobj, ws])
+        gi, gp = pobj.attrs["grp_indices"], pobj.attrs["grp_ptr"]
+        idxs = [gi[i] for i in range(gp[0], gp[1])]
+        step = const(1) / lc[1]
+        wg = Vec(w[i] for i in idxs)
+        gg = Vec([g[2]])
+        u = L.call_function(pcls.find_method("prox_1group"),
+                            [L.binop(ast.Sub, wg, L.binop(ast.Mult, gg, step)), step, 0], self_obj=pobj)
+        exp1 = L.norm2(L.binop(ast.Sub, wg, Vec(u)))
+        n += 1
+        d = _first_diff(rg, Vec([got[1]]), Vec([exp1]))
+        ctx.ob(rule, key, d is None,
+               what=f"dist_fix_point_bcd, ws = [1, 0] with zero curvature on the first group: the second "
+                    f"group is scored with another group's gradient slice ({d})", loc=loc(f, f.node))
+    except Raised as e:
+        n += 1
+        ctx.ob(rule, key, False, what=f"dist_fix_point_bcd raises: {e}", loc=loc(f, f.node))
+    except (Unsupported, ZeroDivisionError, IndexError) as e:
+        ctx.ob(rule, key, None, detail=f"not lifted: {e}")
     # ---- multitask
     f = _func(A, "skglm.solvers.multitask_bcd", "dist_fix_point_bcd")
     pcls = _cls(prog.penalties, "L2_1")
